@@ -238,3 +238,24 @@ def c15_units(tier, seed):
 
 PROPS["C15"] = dict(units=c15_units, bounds_text="all dates y in 1..9998 (year symbolic), all 7 week starts; whole-week steps |n|<=8 (quick) / 100 (thorough); month/season steps |n|<=10^6; month-separated week stepping: single steps +1/-1/0 from every week (composition by induction on positions)",
                     outside="month-separated stepping around October 1582 (Sep-Nov 1582 excluded); multi-step Next(n,true) is covered only through the one-step law")
+
+
+def c12_units(tier, seed):
+    q = tier == "quick"
+    ys = year_set(tier, seed, budget_quick=10) if q else year_set(tier, seed)[::3]
+    ys = [y for y in ys if y <= 9800]
+    us = []
+    for sect in (1, 2):
+        us += per_year("calendar.VH_C12_Start", f"C12a[sect={sect}]", ys, {"SECT": sect})
+    ys2 = [2020] if q else [15, 1990, 2020, 2033, 9000]
+    for Y in ys2:
+        for I in ((0, 1, 5, 9) if q else range(10)):
+            for bm in (2, 11):
+                for fwd in (0, 1):
+                    us.append(dict(id=f"C12b[Y={Y},I={I},bm={bm},fwd={fwd}]", harness="calendar.VH_C12_Chain", params={"Y": Y, "I": I, "BM": bm, "FWD": fwd}))
+    return us
+
+
+PROPS["C12"] = dict(units=c12_units, bounds_text="start offsets and direction: every birth second of each listed year, both genders, both schools; chain (field-level): birth year from the listed set, arbitrary month/hour pillars, direction, start offset 0..12 years and 0..11 months, every great-fortune index 0..9 with all its annual, minor and monthly entries",
+                    outside="years not listed; chain states with non-zero start day/hour offsets (they influence the chain only through the start year, which is covered as Y+sy or Y+sy+1)",
+                    unit_timeout_ms={"quick": 400000, "thorough": 1500000})
